@@ -260,6 +260,85 @@ theorem warning_tolerance_band_witness :
     simp only [sumTot, List.map_cons, List.map_nil, List.sum_cons, List.sum_nil, Bool.and_false]
     norm_num
 
+/-! ## vectorised molalities, the other paths of `allclose`, the base class -/
+
+/-- **one numpy array per ion** (m samples; a k×m array, a Quantity array or a dict of arrays iterate the same way): the result is
+    the array of the sample-wise ionic strengths, and ONE warning is issued iff `warn` and some sample fails the neutrality test
+    (`allclose` takes its array path `np.all([d_j <= lim_j ...])`): vectorising neither changes a value nor hides / invents a warning. -/
+theorem vectorised_spec (m : ℕ) (p : List ℝ × ℝ) (r : List (List ℝ × ℝ)) (warn : Bool)
+    (h : ∀ q ∈ p :: r, q.1.length = m) :
+    ∃ vals w, ionicStrengthVec ((p :: r).map Prod.fst) ((p :: r).map Prod.snd) warn = .ok (vals, w) ∧ vals.length = m ∧
+      (∀ j < m, ∃ wj, ionicStrength ((p :: r).map fun q => q.1.getD j 0) ((p :: r).map Prod.snd) warn = .ok (vals.getD j 0, wj)) ∧
+      (w = true ↔ ∃ j < m, ionicStrength ((p :: r).map fun q => q.1.getD j 0) ((p :: r).map Prod.snd) warn
+                            = .ok (vals.getD j 0, true)) := by
+  obtain ⟨vals, w, h1, h2, h3, h4⟩ := ionicStrengthVec_spec m p r warn h
+  have hcol : ∀ j, ionicStrength ((p :: r).map fun q => q.1.getD j 0) ((p :: r).map Prod.snd) warn
+      = .ok (sumTot (col j (p :: r)) / 2, warn && notNeutral (sumNet (col j (p :: r))) (sumTot (col j (p :: r)))) := by
+    intro j
+    have := isPairs_cons (p.1.getD j 0, p.2) (col j r) warn
+    simpa [isPairs, col, Function.comp_def] using this
+  refine ⟨vals, w, h1, h2, fun j hj => ⟨_, by rw [hcol j, h3 j hj]⟩, ?_⟩
+  rw [h4]
+  constructor
+  · rintro ⟨hw, j, hj, hn⟩
+    exact ⟨j, hj, by rw [hcol j, h3 j hj, hw, hn]; rfl⟩
+  · rintro ⟨j, hj, he⟩
+    rw [hcol j] at he
+    have := (Prod.mk.inj (Except.ok.inj he)).2
+    simp only [Bool.and_eq_true] at this
+    exact ⟨this.1, j, hj, this.2⟩
+
+/-- the vectorised form refuses like the scalar one: different lengths → `ValueError`, no entries → `TypeError` -/
+theorem vectorised_rejects :
+    (∀ (rows : List (List ℝ)) (zs : List ℝ) (warn : Bool), rows.length ≠ zs.length → ionicStrengthVec rows zs warn = .error .valueError) ∧
+    (∀ warn : Bool, ionicStrengthVec ([] : List (List ℝ)) [] warn = .error .typeError) := by
+  constructor
+  · intro rows zs warn h; simp [ionicStrengthVec, h]
+  · intro warn; simp [ionicStrengthVec, loopSumVec]
+
+/-- **the sequence paths of `allclose`** follow the definition `|a − b| ≤ |a|·rtol + atol` element by element:
+    arrays (with an array `atol`), a scalar against an array, and Python lists (equal lengths required, `False` otherwise) -/
+theorem allclose_paths_spec (m : ℕ) (a b atol : List ℝ) (x rtol t : ℝ) (ha : a.length = m) (hb : b.length = m) (ht : atol.length = m) :
+    (allcloseArr a b rtol atol = true ↔ ∀ j < m, |a.getD j 0 - b.getD j 0| ≤ |a.getD j 0| * rtol + atol.getD j 0) ∧
+    (allcloseScalarArr x b rtol t = true ↔ ∀ y ∈ b, |x - y| ≤ |x| * rtol + t) ∧
+    (allcloseList a b rtol t = true ↔ ∀ j < m, |a.getD j 0 - b.getD j 0| ≤ |a.getD j 0| * rtol + t) ∧
+    (∀ c : List ℝ, c.length ≠ a.length → allcloseList a c rtol t = false) := by
+  have hsc : ∀ u v w : ℝ, allclose u v rtol w = true ↔ |u - v| ≤ |u| * rtol + w := by
+    intro u v w
+    simp only [allclose, allcloseD, allcloseLim, pabs_eq, decide_eq_true_eq]
+  refine ⟨?_, ?_, ?_, ?_⟩
+  · rw [allcloseArr_iff m a b atol rtol ha hb ht]
+    simp only [hsc]
+  · simp only [allcloseScalarArr, List.all_eq_true, hsc]
+  · have h1 := allcloseArr_iff m a b (List.replicate m t) rtol ha hb (by simp)
+    have h2 : allcloseList a b rtol t = allcloseArr a b rtol (List.replicate m t) := by
+      unfold allcloseList allcloseArr
+      rw [if_pos (by omega)]
+      congr 1
+      clear h1 ht
+      induction m generalizing a b with
+      | zero =>
+        have : a = [] := List.length_eq_zero_iff.mp ha
+        subst this; simp
+      | succ n ih =>
+        obtain ⟨u, a', rfl⟩ := List.exists_cons_of_length_eq_add_one ha
+        obtain ⟨v, b', rfl⟩ := List.exists_cons_of_length_eq_add_one hb
+        simp only [List.zipWith_cons_cons, List.zip_cons_cons, List.replicate_succ, List.cons.injEq, true_and]
+        exact ih a' b' (by simpa using ha) (by simpa using hb)
+    rw [h2, h1]
+    constructor
+    · intro h j hj
+      have := (hsc _ _ _).mp (h j hj)
+      simpa [List.getD_eq_getElem?_getD, List.getElem?_replicate, hj] using this
+    · intro h j hj
+      rw [hsc]
+      simpa [List.getD_eq_getElem?_getD, List.getElem?_replicate, hj] using h j hj
+  · intro c hc
+    simp [allcloseList, Ne.symm hc]
+
+/-- the base class `_ActivityProductBase` does nothing when called (returns `None`) -/
+theorem base_class_call_is_none (stoich c : List ℝ) : baseClassCall stoich c = none := rfl
+
 /-! ## Debye–Hückel constants A and B: two code paths -/
 
 /-- **both paths of `A` have the same form** `C · ρ^{1/2} · b₀^{1/2} · (ε_r T)^{-3/2}` for all positive arguments: the
@@ -558,6 +637,12 @@ example : ionicStrengthDict [("Mg+2".toList, (6 : ℝ)), ("PO4-3".toList, 4)] tr
       · exact ⟨by decide, by decide, by decide +kernel⟩
       · exact ⟨by decide, by decide, by decide +kernel⟩)
   simpa using h
+
+/-- two ions, two samples: an instance of `vectorised_spec` -/
+example : ∃ vals w, ionicStrengthVec [[(1 : ℝ), 2], [3, 6]] [3, -1] true = .ok (vals, w) ∧ vals.length = 2 := by
+  obtain ⟨vals, w, h1, h2, _⟩ := vectorised_spec 2 ([1, 2], 3) [([3, 6], -1)] true
+    (by intro q hq; simp only [List.mem_cons, List.not_mem_nil, or_false] at hq; rcases hq with rfl | rfl <;> rfl)
+  exact ⟨vals, w, by simpa using h1, h2⟩
 
 /-- water at 20 °C lies in the domain of `A_paths_agree` / `B_paths_agree` -/
 example : |aConst (80.1 : ℝ) 293.15 998.2071 1 constFaraday constAvogadro constVacuumPermittivity constBoltzmann constPi
